@@ -823,6 +823,11 @@ impl Xot {
                 "Cannot wrap document node".to_string(),
             ));
         }
+        if !self.value(node).is_normal() {
+            return Err(Error::InvalidOperation(
+                "Cannot wrap attribute or namespace node".to_string(),
+            ));
+        }
         // we forbid wrapping nodes under the document node too unless it's the
         // document element
         if self.has_document_parent(node) && !self.is_document_element(node) {
